@@ -19,7 +19,7 @@ NOT_DECIDED = "that TDigest's centroids number O(delta) after a merge (C04's num
 ASSUMPTIONS = ["IntVector::block_with_fill(bits, n, v) allocates n storage blocks", "FixedBitSet::with_capacity(n) allocates n bits", "vec![x; n] allocates n elements"]
 
 GROW = {"push", "insert", "extend", "push_back", "push_front", "append", "extend_from_slice", "or_insert", "or_insert_with"}
-SHRINK = {"remove", "pop", "pop_front", "pop_back", "drain", "clear", "truncate", "retain", "swap_remove"}
+SHRINK = {"remove", "pop", "pop_front", "pop_back", "drain", "clear", "truncate", "retain", "swap_remove", "pop_first", "pop_last", "take"}
 
 
 def run(ctx):
